@@ -83,6 +83,40 @@ func (x *Exec) finishUnit(u *Unit, t0 time.Time) *Unit {
 	x.assertAxioms()
 	u.vc = x.vc
 	u.Obls = x.vc.obls
+	// a contract that names a variable, field or call the code no longer has does not fit the code
+	// any more: that is a (contract-shape) violation of the claimed clause, not a broken check.
+	// Follow-up evaluation errors of the same unit are consequences and are folded into it.
+	var missing []string
+	for m := range x.unsupported {
+		if nameResolutionRE.MatchString(m) {
+			missing = append(missing, m)
+		}
+	}
+	if len(missing) > 0 {
+		sort.Strings(missing)
+		for m := range x.unsupported {
+			if strings.HasPrefix(m, "spec:") {
+				delete(x.unsupported, m)
+			}
+		}
+		// obligations built from a clause that failed to evaluate are ill-formed: the names-resolve
+		// violation stands for them
+		kept := x.vc.obls[:0]
+		for _, o := range x.vc.obls {
+			if strings.Contains(o.Goal, "specerr") || strings.Contains(strings.Join(o.Extra, " "), "specerr") {
+				continue
+			}
+			kept = append(kept, o)
+		}
+		x.vc.obls = kept
+		for _, m := range missing {
+			id := nameResolutionRE.FindStringSubmatch(m)[2]
+			o := &Obl{Name: fmt.Sprintf("%s/contract-shape:names-resolve(%s)", u.Name, id), Kind: "contract-shape", Reach: "true", Goal: "false", Pos: u.Pos,
+				Text: "every variable, field and call a contract clause names exists in the code: " + m, Fn: u.Name}
+			x.vc.obls = append(x.vc.obls, o)
+		}
+	}
+	u.Obls = x.vc.obls
 	u.Unsupported = sortedKeys(x.unsupported)
 	u.Assumptions = sortedKeys(x.vc.assumptions)
 	u.Inlined = sortedKeys(x.inlinedFns)
@@ -92,6 +126,8 @@ func (x *Exec) finishUnit(u *Unit, t0 time.Time) *Unit {
 	u.GenTime = time.Since(t0).Seconds()
 	return u
 }
+
+var nameResolutionRE = regexp.MustCompile(`^spec: (unknown identifier|caller has no variable|no field|\$ret: no call of|\$ret\()\s*([\w$.]+)`)
 
 func fieldWriteInScope(fw *FieldWriteContract, pkgPath string) bool {
 	if len(fw.In) == 0 {
@@ -461,11 +497,33 @@ func sweepTargets(p *Prog, db *ContractDB, prop string) []*ssa.Function {
 		found := false
 		for _, b := range fn.Blocks {
 			for _, ins := range b.Instrs {
+				if len(fws) > 0 {
+					var ak, atk string
+					switch t := ins.(type) {
+					case *ssa.Store:
+						if ia, ok := t.Addr.(*ssa.IndexAddr); ok {
+							ak, atk = "elem", typeKey(deref(ia.Type()))
+						}
+					case *ssa.MapUpdate:
+						ak, atk = "map", typeKey(t.Map.Type().Underlying())
+					case *ssa.Lookup:
+						if _, isMap := t.X.Type().Underlying().(*types.Map); isMap {
+							ak, atk = "map", typeKey(t.X.Type().Underlying())
+						}
+					}
+					if ak != "" {
+						for _, fw := range fws {
+							if fw.Kind == ak && fw.Type == atk && (fw.InFunc == nil || fw.InFunc.MatchString(shortFn(fn))) && fieldWriteInScope(fw, pkgPath) {
+								found = true
+							}
+						}
+					}
+				}
 				if stt, isStore := ins.(*ssa.Store); isStore && len(fws) > 0 {
 					if fa, isFA := stt.Addr.(*ssa.FieldAddr); isFA {
 						if su, isStruct := deref(fa.X.Type()).Underlying().(*types.Struct); isStruct {
 							for _, fw := range fws {
-								if fw.Type == typeKey(deref(fa.X.Type())) && fw.Field == su.Field(fa.Field).Name() &&
+								if fw.Kind == "field" && fw.Type == typeKey(deref(fa.X.Type())) && fw.Field == su.Field(fa.Field).Name() &&
 									(fw.InFunc == nil || fw.InFunc.MatchString(shortFn(fn))) && fieldWriteInScope(fw, pkgPath) {
 									found = true
 								}
